@@ -13,7 +13,7 @@ EXPLANATION = (
     "must yield the file of the role table. FLOW-ROLE: in the Verify arm each task field is fed (possibly through named locals) by exactly the "
     "accessor of its role through the parser of the matching node type, the Either tags of specification() are preserved, and no other accessor is "
     "used. The sibling-pipeline / mirrored-routing obligations of C03 are run here too (swapping the programs swaps axioms and conjectures). Decides the structural clauses for every argument list; "
-    "does not decide walkdir's own behaviour.")
+    "does not decide walkdir's own behaviour. SHARED: the transition axioms range over the predicates of both files (C03's transition obligations).")
 UNDECIDED = ["file-system behaviour of the walkdir library (entry order inside a directory relies on its sort_by_file_name)",
              "that swapping programs swaps axioms/conjectures — decided as mirror symmetry under C03 (strong) and C02 (external)"]
 ASSUMPTIONS = ["walkdir::WalkDir::sort_by_file_name orders directory entries by file name", "rustc name resolution and type check"]
